@@ -8,21 +8,35 @@ package scheduler
 // dispatcher's completion notice until the schedule says it is applied, so the window between
 // "torrent complete" and "completion event applied" is forced to overlap with every other event.
 //
-// A download request is executed like scheduler.doDownload does (CreateTorrent, newTorrentEvent with
-// a result channel), except that the harness keeps the channel and drains it after every operation,
-// recording every value ever sent on it.
+// A download request is a real call of scheduler.Download on its own goroutine: the caller's half
+// (CreateTorrent, handing newTorrentEvent to the event loop, the error mapping, the wait on the result
+// channel) is the real code. The recording event loop holds the newTorrentEvent until the schedule applies
+// it (`req` = create and apply at once, `creq` / `apply` = split); when it is applied, the event's result
+// channel is swapped for one the harness reads, so that EVERY value the scheduler sends is observed, and the
+// first one is passed on to the real channel, after which the real Download must return (with that result).
 
 import (
 	"fmt"
+	"net"
 	"sort"
 	"strconv"
 	"strings"
 	"testing"
 	"time"
 
+	"github.com/uber-go/tally"
+	"github.com/uber/kraken/core"
+	"github.com/uber/kraken/lib/store"
+	"github.com/uber/kraken/lib/torrent/networkevent"
+	"github.com/uber/kraken/lib/torrent/scheduler/announcequeue"
 	"github.com/uber/kraken/lib/torrent/scheduler/dispatch"
-	"github.com/uber/kraken/lib/torrent/storage"
+	"github.com/uber/kraken/lib/torrent/storage/agentstorage"
+	"github.com/uber/kraken/lib/torrent/storage/piecereader"
+	"github.com/uber/kraken/tracker/announceclient"
+	"github.com/uber/kraken/tracker/metainfoclient"
+	"github.com/uber/kraken/utils/log"
 	"github.com/uber/kraken/utils/verifh"
+	"github.com/willf/bitset"
 )
 
 const c17Machine = "sched"
@@ -31,12 +45,28 @@ const c17NTor = 2
 type c17Run struct {
 	w       *vWorld
 	tr      *verifh.T
-	errcs   []chan error // waiter id -> result channel
+	errcs   []chan error // waiter id -> the channel the scheduler's events send to (harness-owned)
 	got     [][]string   // waiter id -> every result delivered so far
+	reqs    []*c17Req    // waiter id -> the real Download call
 	gens    map[*dispatch.Dispatcher]int
 	disps   []*dispatch.Dispatcher
 	missing *vBlob
-	pending []string // sends of the current operation
+	nInc    int
+	evicted [c17NTor]bool // the blob of the torrent was evicted from the cache since it last became complete
+	pending []string      // sends of the current operation
+}
+
+// c17Req is one real Download call.
+type c17Req struct {
+	tor     int
+	done    chan error       // what Download returned
+	ev      *newTorrentEvent // its event while it waits in the loop's queue (nil once applied)
+	real    chan error       // the result channel doDownload waits on
+	fwd     bool             // a result was passed on to it
+	retd    bool             // Download has returned
+	created bool
+	// the request was split (creq … apply) and the torrent object its CreateTorrent made was complete
+	staleComplete bool
 }
 
 func c17Class(err error) string {
@@ -60,14 +90,22 @@ func (r *c17Run) deliver(wid int, class string, i int) {
 	r.got[wid] = append(r.got[wid], class)
 	r.pending = append(r.pending, fmt.Sprintf("w%d:%s:%s", wid, class, verifh.Bool(ca)))
 	if class == "ok" && !ca {
-		r.tr.PropFail("success-without-blob", fmt.Sprintf("w%d", wid))
+		// two situations are known findings with their own keys; anything else is a plain violation
+		key := "success-without-blob"
+		if q := r.reqs[wid]; q != nil && q.staleComplete {
+			key = "success-from-stale-torrent-object"
+		} else if i >= 0 && r.evicted[i] {
+			key = "success-after-eviction"
+		}
+		r.tr.PropFail(key, fmt.Sprintf("w%d", wid))
 	}
 	if len(r.got[wid]) == 2 {
 		r.tr.PropFail("waiter-answered-twice", fmt.Sprintf("w%d", wid), strings.Join(r.got[wid], "+"))
 	}
 }
 
-// drain records everything that was sent to the waiters' channels since the last call.
+// drain records everything that was sent to the waiters' channels since the last call; the first value of
+// a request is passed on to the real Download call, which must then return that very result.
 func (r *c17Run) drain(tors []int) {
 	for wid, c := range r.errcs {
 		if c == nil {
@@ -77,11 +115,87 @@ func (r *c17Run) drain(tors []int) {
 			select {
 			case err := <-c:
 				r.deliver(wid, c17Class(err), tors[wid])
+				if q := r.reqs[wid]; q != nil && !q.fwd {
+					q.fwd = true
+					q.real <- err
+					r.awaitReturn(wid, c17Class(err))
+				}
 			default:
 				more = false
 			}
 		}
 	}
+}
+
+// awaitReturn waits for the real Download call of request wid to return and checks what it returned.
+func (r *c17Run) awaitReturn(wid int, want string) {
+	q := r.reqs[wid]
+	select {
+	case err := <-q.done:
+		q.retd = true
+		if got := c17Class(err); got != want {
+			r.tr.PropFail("download-returned-other", fmt.Sprintf("w%d", wid), "sent="+want, "returned="+got)
+		}
+	case <-time.After(10 * time.Second):
+		r.tr.PropFail("download-never-returned", fmt.Sprintf("w%d", wid), "after="+want)
+	}
+}
+
+// create starts a real Download call for torrent i (or the unknown blob, i < 0) and waits until it either
+// returned (not found, scheduler stopped, …) or handed its newTorrentEvent to the event loop.
+func (r *c17Run) create(i int, tors *[]int) int {
+	w := r.w
+	wid := len(r.errcs)
+	d := r.missing.digest
+	if i >= 0 {
+		d = w.blobs[i].digest
+	}
+	q := &c17Req{tor: i, done: make(chan error, 1), created: true}
+	r.errcs = append(r.errcs, make(chan error, 4))
+	r.got = append(r.got, nil)
+	r.reqs = append(r.reqs, q)
+	*tors = append(*tors, i)
+	go func() { q.done <- w.sched.Download(vNamespace, d) }()
+	deadline := time.Now().Add(10 * time.Second)
+	for {
+		select {
+		case err := <-q.done:
+			// returned without an event: the result of the call is the result of the request
+			q.retd, q.fwd = true, true
+			r.deliver(wid, c17Class(err), i)
+			return wid
+		default:
+		}
+		if e, ok := w.loop.take(func(e event) bool {
+			ne, ok := e.(newTorrentEvent)
+			return ok && ne.torrent.Digest() == d
+		}, 0); ok {
+			ne := e.(newTorrentEvent)
+			q.ev, q.real = &ne, ne.errc
+			return wid
+		}
+		if time.Now().After(deadline) {
+			panic("harness: Download neither returned nor sent its event")
+		}
+		time.Sleep(20 * time.Microsecond)
+	}
+}
+
+// applyReq lets the event loop apply the newTorrentEvent of request wid (a stopped loop refuses it:
+// the caller's send fails and Download returns "stopped").
+func (r *c17Run) applyReq(wid int) string {
+	w := r.w
+	q := r.reqs[wid]
+	if q == nil || q.ev == nil {
+		return "none"
+	}
+	ev := newTorrentEvent{q.ev.namespace, q.ev.torrent, r.errcs[wid]}
+	q.ev = nil
+	if !w.submit(ev) {
+		r.errcs[wid] <- ErrSchedulerStopped
+		return "refused"
+	}
+	return "applied"
 }
 
 func (r *c17Run) sends() string {
@@ -173,8 +287,35 @@ func (r *c17Run) status() {
 	for i := 0; i < c17NTor; i++ {
 		ca += verifh.Bool(w.exists(w.cads.Cache(), i))
 	}
-	obs = append(obs, "n="+verifh.List(r.pendingNotices()), "stopped="+verifh.Bool(w.loop.isStopped()), "ca="+ca)
+	var pc []string
+	for wid, q := range r.reqs {
+		if q != nil && q.ev != nil {
+			pc = append(pc, fmt.Sprintf("w%d", wid))
+		}
+	}
+	notices := r.pendingNotices()
+	obs = append(obs, "n="+verifh.List(notices), "stopped="+verifh.Bool(w.loop.isStopped()), "ca="+ca, "pc="+verifh.List(pc))
 	r.tr.Rec("st", nil, obs)
+	// at rest (every event applied, and stopped or nothing in progress and no notice in flight) every request
+	// made so far must have exactly one result and its Download must have returned
+	rest := len(pc) == 0
+	if rest && !w.loop.isStopped() {
+		rest = len(notices) == 0
+		for i := 0; i < c17NTor && rest; i++ {
+			if ctrl := w.ctrl(i); ctrl != nil && !ctrl.dispatcher.Complete() {
+				rest = false
+			}
+		}
+	}
+	if rest {
+		for wid, g := range r.got {
+			if len(g) == 0 {
+				r.tr.PropFail("waiter-unanswered-at-rest", fmt.Sprintf("w%d", wid))
+			} else if q := r.reqs[wid]; q != nil && !q.retd {
+				r.tr.PropFail("download-never-returned", fmt.Sprintf("w%d", wid))
+			}
+		}
+	}
 }
 
 func (r *c17Run) do(op []string, tors *[]int) bool {
@@ -191,43 +332,115 @@ func (r *c17Run) do(op []string, tors *[]int) bool {
 			return false
 		}
 		w.clk.advance(time.Duration(n))
-	case op[1] == "req" && len(op) == 3:
-		wid := len(r.errcs)
-		first = []string{fmt.Sprintf("w%d", wid)}
-		if op[2] == "hx" {
-			// unknown to the tracker: Download returns before any event is sent
-			r.errcs = append(r.errcs, nil)
-			r.got = append(r.got, nil)
-			*tors = append(*tors, -1)
-			_, err := w.ta.CreateTorrent(vNamespace, r.missing.digest)
-			cl := "err"
-			if err == storage.ErrNotFound {
-				cl = c17Class(ErrTorrentNotFound)
+	case (op[1] == "req" || op[1] == "creq") && len(op) == 3:
+		i := -1
+		if op[2] != "hx" {
+			var ok bool
+			if i, ok = c17Tor(op[2]); !ok {
+				return false
 			}
-			r.deliver(wid, cl, -1)
+		}
+		wid := r.create(i, tors)
+		first = []string{fmt.Sprintf("w%d", wid)}
+		if q := r.reqs[wid]; op[1] == "creq" && q.ev != nil && q.ev.torrent.Complete() {
+			q.staleComplete = true
+		}
+		if op[1] == "req" {
+			nd := len(r.disps)
+			r.applyReq(wid)
+			r.noteDispatchers()
+			if i >= 0 {
+				if ctrl := w.ctrl(i); ctrl != nil && len(r.disps) > nd && ctrl.dispatcher.Complete() {
+					r.awaitNotice(ctrl.dispatcher) // dispatch.New on a cached blob sends the notice right away
+				}
+			}
+		}
+	case op[1] == "apply" && len(op) == 3:
+		if !strings.HasPrefix(op[2], "w") {
+			return false
+		}
+		if op[2] == "w*" || op[2] == "w^" { // generator shorthand: the oldest / newest request whose event waits
+			pick := -1
+			for wid, q := range r.reqs {
+				if q != nil && q.ev != nil && (pick < 0 || op[2] == "w^") {
+					pick = wid
+				}
+			}
+			if pick < 0 {
+				return false
+			}
+			op = []string{"op", "apply", fmt.Sprintf("w%d", pick)}
+			rec = op[1:]
+		}
+		wid, err := strconv.Atoi(op[2][1:])
+		if err != nil || wid < 0 {
+			return false
+		}
+		if wid >= len(r.reqs) {
+			first = []string{"none"}
 			break
 		}
+		nd := len(r.disps)
+		first = []string{r.applyReq(wid)}
+		r.noteDispatchers()
+		if i := r.reqs[wid].tor; i >= 0 {
+			if ctrl := w.ctrl(i); ctrl != nil && len(r.disps) > nd && ctrl.dispatcher.Complete() {
+				r.awaitNotice(ctrl.dispatcher)
+			}
+		}
+	case op[1] == "evict" && len(op) == 3:
 		i, ok := c17Tor(op[2])
 		if !ok {
 			return false
 		}
-		errc := make(chan error, 4) // the real one has capacity 1 and a reader; see drain
-		r.errcs = append(r.errcs, errc)
-		r.got = append(r.got, nil)
-		*tors = append(*tors, i)
-		t, err := w.createTorrent(i, 0)
+		first = []string{"none"}
+		if w.exists(w.cads.Cache(), i) {
+			if err := w.cads.Cache().DeleteFile(w.blobs[i].digest.Hex()); err != nil {
+				panic(err)
+			}
+			first = []string{"evicted"}
+			r.evicted[i] = true
+		}
+	case op[1] == "inc" && len(op) == 3:
+		// a remote peer connects for torrent i: addIncomingConn creates a control without any waiter
+		i, ok := c17Tor(op[2])
+		if !ok {
+			return false
+		}
+		if w.loop.isStopped() {
+			first = []string{"stopped"}
+			break
+		}
+		if !w.exists(w.cads.Any(), i) {
+			if _, err := w.createTorrent(i, 0); err != nil {
+				panic(err)
+			}
+		}
+		r.nInc++
+		id, err := core.HashedPeerID(fmt.Sprintf("verif-c17-inc-%d", r.nInc))
 		if err != nil {
-			r.deliver(wid, "err", i)
-			break
+			panic(err)
 		}
-		if !w.submit(newTorrentEvent{vNamespace, t, errc}) {
-			r.deliver(wid, c17Class(ErrSchedulerStopped), i)
-			break
-		}
+		bf, _ := bitset.New(uint(w.np)).MarshalBinary()
 		nd := len(r.disps)
+		in := w.incoming(id, i, w.blobs[i].mi.InfoHash(), bf)
+		first = []string{in.res}
 		r.noteDispatchers()
 		if ctrl := w.ctrl(i); ctrl != nil && len(r.disps) > nd && ctrl.dispatcher.Complete() {
-			r.awaitNotice(ctrl.dispatcher) // dispatch.New on a cached blob sends the notice right away
+			r.awaitNotice(ctrl.dispatcher)
+		}
+		if in.res == "active" || in.res == "connrejected" {
+			if in.res == "active" {
+				in.remote.Close()
+			}
+			if e, ok := w.loop.take(func(e event) bool {
+				ce, ok := e.(connClosedEvent)
+				return ok && ce.c == in.c
+			}, 10*time.Second); ok {
+				e.apply(w.st)
+			} else {
+				panic("harness: no ConnClosed event")
+			}
 		}
 	case op[1] == "finish" && len(op) == 3:
 		i, ok := c17Tor(op[2])
@@ -237,6 +450,7 @@ func (r *c17Run) do(op []string, tors *[]int) bool {
 		res := w.deliverPiece(i, 0, true)
 		first = []string{res}
 		if res == "ok" {
+			r.evicted[i] = false
 			r.awaitNotice(w.ctrl(i).dispatcher)
 		}
 	case op[1] == "notice" && len(op) == 4:
@@ -245,8 +459,14 @@ func (r *c17Run) do(op []string, tors *[]int) bool {
 			return false
 		}
 		var d *dispatch.Dispatcher
-		if op[3] == "g*" { // generator shorthand: the oldest pending notice of this torrent
-			for _, x := range r.disps {
+		if op[3] == "g*" || op[3] == "g^" { // generator shorthand: the oldest / newest pending notice of this torrent
+			order := append([]*dispatch.Dispatcher(nil), r.disps...)
+			if op[3] == "g^" {
+				for a, b := 0, len(order)-1; a < b; a, b = a+1, b-1 {
+					order[a], order[b] = order[b], order[a]
+				}
+			}
+			for _, x := range order {
 				if r.torOf(x) == i && w.loop.waitFor(func(e event) bool {
 					ce, ok := e.(dispatcherCompleteEvent)
 					return ok && ce.dispatcher == x
@@ -368,6 +588,11 @@ func c17Exec(tr *verifh.T, c verifh.Case) {
 	if okSoFar {
 		// epilogue: bring the scheduler to rest (apply every pending notice, then stop it); after that
 		// every download request must have exactly one result.
+		for wid, q := range r.reqs {
+			if q != nil && q.ev != nil {
+				run([]string{"op", "apply", fmt.Sprintf("w%d", wid)})
+			}
+		}
 		for _, n := range r.pendingNotices() {
 			parts := strings.SplitN(n, "g", 2)
 			run([]string{"op", "notice", parts[0], "g" + parts[1]})
@@ -415,6 +640,48 @@ func TestVerif_C17(t *testing.T) {
 		letters = append(letters, [][]string{{"op", "req", "h1"}}, [][]string{{"op", "finish", "h1"}},
 			[][]string{{"op", "notice", "h1", "g*"}})
 	}
+	// (a2) split requests, eviction and incoming connections around completion and removal
+	core2 := [][][]string{
+		{{"op", "req", "h0"}}, {{"op", "creq", "h0"}}, {{"op", "apply", "w*"}}, {{"op", "finish", "h0"}},
+		{{"op", "notice", "h0", "g*"}}, {{"op", "rm", "h0"}}, {{"op", "evict", "h0"}}, {{"op", "inc", "h0"}},
+	}
+	var rec2 func(prefix [][]string, d int)
+	rec2 = func(prefix [][]string, d int) {
+		if d == 0 {
+			c17Exec(tr, verifh.Case{Cfg: c17Cfg(5, 5), Ops: prefix})
+			tr.Count("core2_exhaustive_cases", 1)
+			return
+		}
+		for _, l := range core2 {
+			rec2(append(prefix[:len(prefix):len(prefix)], l...), d-1)
+		}
+	}
+	for d := 1; d <= verifh.Scale(3, 5); d++ {
+		rec2(nil, d)
+	}
+	// (a3) a completed torrent, then every 3-letter continuation over the same letters plus the idle tick
+	// (eviction under a live complete control, stale torrent objects, late notices)
+	core3 := append(append([][][]string{}, core2...), [][]string{{"op", "adv", "5"}, {"op", "tick"}}, [][]string{{"op", "apply", "w^"}})
+	for _, withNotice := range []bool{true, false} {
+		for _, l1 := range core3 {
+			for _, l2 := range core3 {
+				for _, l3 := range core3 {
+					ops := [][]string{{"op", "req", "h0"}, {"op", "finish", "h0"}}
+					if withNotice {
+						ops = append(ops, []string{"op", "notice", "h0", "g*"})
+					}
+					ops = append(ops, l1...)
+					ops = append(ops, l2...)
+					ops = append(ops, l3...)
+					if !verifh.Thorough() && len(ops)%3 == 0 && withNotice {
+						continue // quick tier: two thirds of this stream
+					}
+					c17Exec(tr, verifh.Case{Cfg: c17Cfg(5, 5), Ops: ops})
+					tr.Count("completed_then_cases", 1)
+				}
+			}
+		}
+	}
 	depth := verifh.Scale(4, 5)
 	var rec func(prefix [][]string, d int)
 	rec = func(prefix [][]string, d int) {
@@ -440,6 +707,14 @@ func TestVerif_C17(t *testing.T) {
 			h := fmt.Sprintf("h%d", rnd.Intn(c17NTor))
 			var o []string
 			switch x := rnd.Intn(100); {
+			case x < 6:
+				o = []string{"op", "creq", h}
+			case x < 12:
+				o = []string{"op", "apply", rnd.Pick("w*", "w^")}
+			case x < 15:
+				o = []string{"op", "evict", h}
+			case x < 18:
+				o = []string{"op", "inc", h}
 			case x < 25:
 				o = []string{"op", "req", h}
 			case x < 28:
@@ -447,7 +722,7 @@ func TestVerif_C17(t *testing.T) {
 			case x < 45:
 				o = []string{"op", "finish", h}
 			case x < 62:
-				o = []string{"op", "notice", h, "g*"}
+				o = []string{"op", "notice", h, rnd.Pick("g*", "g*", "g^")}
 			case x < 74:
 				o = []string{"op", "adv", strconv.Itoa([]int{0, 1, 2, sttl, lttl, sttl + lttl}[rnd.Intn(6)])}
 			case x < 88:
@@ -477,4 +752,114 @@ func c17Tor(tok string) (int, bool) {
 		return 0, false
 	}
 	return i, true
+}
+
+// ---------------------------------------------------------------- started scheduler (machine "schedlive")
+
+// TestVerif_C17Live runs real, started schedulers (real baseEventLoop, listener, ticker loops) — the part the
+// controlled harness replaces: N concurrent Download calls (blobs that can never complete because there is no
+// peer, blobs unknown to the tracker, a blob that is already cached), then Stop, then Download calls after
+// Stop. Every call must return within the deadline, with the result the statement allows.
+func TestVerif_C17Live(t *testing.T) {
+	tr := verifh.Open("schedlive")
+	defer tr.Close()
+	run := func(known, missing, cached, after int) {
+		cads, cleanup := store.CADownloadStoreFixture()
+		defer cleanup()
+		mic := metainfoclient.NewTestClient()
+		ta := agentstorage.NewTorrentArchive(tally.NoopScope, cads, mic)
+		blobs := []*vBlob{vBlobFor(20, 2), vBlobFor(21, 2)}
+		for _, b := range blobs {
+			mic.Upload(b.mi)
+		}
+		if cached > 0 {
+			tor, err := ta.CreateTorrent(vNamespace, blobs[1].digest)
+			if err != nil {
+				panic(err)
+			}
+			for i := 0; i < tor.NumPieces(); i++ {
+				if err := tor.WritePiece(piecereader.NewBuffer(blobs[1].piece(i)), i); err != nil {
+					panic(err)
+				}
+			}
+		}
+		l, err := net.Listen("tcp", "localhost:0")
+		if err != nil {
+			panic(err)
+		}
+		port := l.Addr().(*net.TCPAddr).Port
+		l.Close()
+		pctx, err := core.NewPeerContext(core.AddrHashPeerIDFactory, "zone1", "verif", "127.0.0.1", port, false)
+		if err != nil {
+			panic(err)
+		}
+		s, err := newScheduler(Config{TorrentLog: log.Config{Disable: true}, Log: log.Config{Disable: true}},
+			ta, tally.NoopScope, pctx, announceclient.Disabled(), networkevent.NewTestProducer())
+		if err != nil {
+			panic(err)
+		}
+		if err := s.start(announcequeue.New()); err != nil {
+			panic(err)
+		}
+		type res struct {
+			kind string
+			err  error
+		}
+		results := make(chan res, 64)
+		call := func(kind string, d core.Digest) {
+			go func() { results <- res{kind, s.Download(vNamespace, d)} }()
+		}
+		for i := 0; i < known; i++ {
+			call("known", blobs[0].digest)
+		}
+		for i := 0; i < missing; i++ {
+			call("missing", vBlobFor(22, 1).digest)
+		}
+		for i := 0; i < cached; i++ {
+			call("cached", blobs[1].digest)
+		}
+		// the requests for the known blob must be waiting before the scheduler is stopped
+		deadline := time.Now().Add(10 * time.Second)
+		got := map[string]int{}
+		returned := 0
+		collect := func(until int) {
+			for returned < until && time.Now().Before(deadline) {
+				select {
+				case r := <-results:
+					returned++
+					got[r.kind+":"+c17Class(r.err)]++
+					if r.err == nil && r.kind != "cached" {
+						tr.PropFail("success-without-blob", r.kind)
+					}
+				case <-time.After(50 * time.Millisecond):
+				}
+			}
+		}
+		collect(missing + cached)
+		time.Sleep(20 * time.Millisecond)
+		s.Stop()
+		for i := 0; i < after; i++ {
+			call("after", blobs[0].digest)
+		}
+		total := known + missing + cached + after
+		collect(total)
+		var classes []string
+		for k, v := range got {
+			classes = append(classes, fmt.Sprintf("%s=%d", k, v))
+		}
+		hung := total - returned
+		if hung > 0 {
+			tr.PropFail("download-never-returned", fmt.Sprintf("hung=%d", hung))
+		}
+		tr.One([]string{"live", fmt.Sprintf("known=%d", known), fmt.Sprintf("missing=%d", missing), fmt.Sprintf("cached=%d", cached),
+			fmt.Sprintf("after=%d", after)}, fmt.Sprintf("hung=%d", hung), verifh.SortedList(classes))
+	}
+	for _, c := range [][4]int{{1, 0, 0, 0}, {0, 1, 0, 0}, {0, 0, 1, 1}, {2, 1, 1, 2}, {3, 2, 0, 1}} {
+		run(c[0], c[1], c[2], c[3])
+	}
+	if verifh.Thorough() {
+		for i := 0; i < 20; i++ {
+			run(1+i%4, i%3, i%2, 1+i%3)
+		}
+	}
 }
